@@ -337,8 +337,16 @@ class IRContext:
         return self._attr_overrides.get(node.name or "", {})
 
     # ---------- Scope-agnostic external flag as graph input (top) or local value (function)
-    def ensure_external_flag(self, name: str, var: Any) -> ir.Value:
-        """Top-level: return/create a BOOL[] graph input `name`.
+    def ensure_external_flag(
+        self,
+        name: str,
+        var: Any,
+        *,
+        dtype: ir.DataType = ir.DataType.BOOL,
+        shape: tuple[int, ...] = (),
+    ) -> ir.Value:
+        """Top-level: return/create a graph input `name` (a BOOL[] flag unless the
+        caller passes the call parameter's own dtype / shape).
         Function body: return the Value for `var` (function input or literal)."""
         if self._inside_function_scope:
             if var is None:
@@ -358,9 +366,7 @@ class IRContext:
         for vi in self.builder.inputs:
             if (vi.name or "") == name:
                 return vi
-        v = ir.Value(
-            name=name, type=ir.TensorType(ir.DataType.BOOL), shape=ir.Shape(())
-        )
+        v = ir.Value(name=name, type=ir.TensorType(dtype), shape=ir.Shape(tuple(shape)))
         self.builder.inputs.append(v)
         return v
 
